@@ -48,7 +48,7 @@ META = dict(
     need=["mode_matrix_comparisons", "capability_checks", "unadvertised_mode_refusals",
           "inverse_mode_comparisons", "simplification_fired_nodes", "multidomain_union_sums",
           "input_unchanged_checks", "target_domain_checks"],
-    quick=dict(cases=1400, workers=6, budget_s=75),
+    quick=dict(cases=1400, workers=6, budget_s=90),
     thorough=dict(cases=24000, workers=16, budget_s=660),
     design_ref="DESIGN.md §5 C01",
     level_text=("generated operator expression trees, every node compared entry-wise with an "
